@@ -312,14 +312,14 @@ class SymVC:
             self._guard = saved
 
     # ---- obligations ------------------------------------------------------------------------------
-    def ensures(self, name, cond, extra_terms=()):
+    def ensures(self, name, cond, extra_terms=(), kind="ensures"):
         # "Cxx/clause": an obligation that belongs to property Cxx only (one exploration of a sampler step
         # serves several properties)
         if len(name) > 4 and name[0] == "C" and name[3] == "/":
             if name[:3] != self.cdef.prop:
                 return
             name = name[4:]
-        self.c.oblige(f"{self.name_prefix}.{name}", cond, extra_terms=extra_terms, getvals=list(self.getvals))
+        self.c.oblige(f"{self.name_prefix}.{name}", cond, kind=kind, extra_terms=extra_terms, getvals=list(self.getvals))
 
     def ensures_forall(self, name, extents, fn):
         """prove fn at generic indices; the range of the indices is an antecedent of THIS goal only (adding
@@ -781,7 +781,7 @@ class NatVC:
     def _fail(self, name, why):
         self.failures.append({"obligation": f"{self.name_prefix}.{name}", "why": why, "inputs": dict(self.inputs)})
 
-    def ensures(self, name, cond, extra_terms=()):
+    def ensures(self, name, cond, extra_terms=(), kind="ensures"):
         if len(name) > 4 and name[0] == "C" and name[3] == "/":
             if name[:3] != self.cdef.prop:
                 return
@@ -855,6 +855,8 @@ class NatVC:
             return False
         if a == b:
             return True
+        if math.isinf(a) or math.isinf(b):
+            return False            # an infinite value only equals the same infinity
         s = self._scale(a, b) if scale is None else float(scale)
         return abs(a - b) <= self.atol + self.rtol * s
 
@@ -862,6 +864,8 @@ class NatVC:
         a, b = float(a), float(b)
         if math.isnan(a) or math.isnan(b):
             return False
+        if math.isinf(a) or math.isinf(b):
+            return a <= b
         s = self._scale(a, b) if scale is None else float(scale)
         return a <= b + self.atol + self.rtol * s
 
@@ -1022,7 +1026,7 @@ def _same(nat, itp, rtol=1e-7, atol=1e-9):
                 a, b = float(a), float(b)
             except Exception:
                 return False, f"non-numeric element {b!r}"
-            if math.isnan(a) and math.isnan(b):
+            if (math.isnan(a) and math.isnan(b)) or a == b:
                 continue
             if not (abs(a - b) <= atol + rtol * max(abs(a), abs(b))):
                 return False, f"element {idx}: {a} vs interpreter {b}"
@@ -1036,7 +1040,7 @@ def _same(nat, itp, rtol=1e-7, atol=1e-9):
             a, b = float(nat), float(itp)
         except Exception:
             return False, f"scalar vs {itp!r}"
-        if math.isnan(a) and math.isnan(b):
+        if (math.isnan(a) and math.isnan(b)) or a == b:
             return True, ""
         if abs(a - b) <= atol + rtol * max(abs(a), abs(b)):
             return True, ""
